@@ -79,7 +79,7 @@ TOKENS: dict[str, list[str]] = {
     "s_ratio": ["'1/2'", "'3/4'"], "s_badratio": ["'1/0'"], "s_cx": ["'1+2j'"],
     "s_date": ["'2020-01-02'", "'1999-12-31'"], "s_time": ["'10:20:30'"], "s_dt": ["'2020-01-02T10:20:30'"],
     "s_uuid": ["'12345678-1234-5678-1234-567812345678'"], "s_b64": ["'YWJj'", "'AAEC'"], "s_badb64": ["'a'", "'abcde'"],
-    "s_nonascii": ["'\\u00e9'", "'\\u4f60\\u597d'"], "s_ip4": ["'127.0.0.1'", "'10.0.0.1'"], "s_badre": ["'('", "'[a'"],
+    "s_nonascii": ["'\\u00e9'", "'\\u4f60\\u597d'"], "s_ip4": ["'127.0.0.1'", "'10.0.0.1'"], "s_badre": ["'('", "'a{99999999999999999999}'", "'[a'"],
     "d_huge": ["Decimal('1e28')", "Decimal('-3.5e40')"],
     "d0": ["Decimal(0)"], "d1": ["Decimal(1)"], "d_frac": ["Decimal('1.5')", "Decimal('2.25')"], "d_nan": ["Decimal('NaN')"],
     "fr1": ["Fraction(1)"], "fr_half": ["Fraction(1, 2)", "Fraction(3, 4)"],
